@@ -10,7 +10,7 @@
     Search (Radix/Machine.v): [find_in false] = findNode as it is (since fix e897fef),
     [find_in true] = the pinned tree; [load] = any sequence of Add on the empty index. *)
 From HV Require Import Base.Prelude Radix.Spec Radix.SpecProofs Radix.Machine Radix.MachineProofs
-  Radix.Load Radix.LoadProofs Radix.Tree Radix.TreeProofs C02.Model C02.Proofs.
+  Radix.Load Radix.LoadProofs Radix.Tree Radix.TreeProofs Radix.TreeAddProofs C02.Model C02.Proofs.
 
 (** ** the search returns what the specification says
 
@@ -37,14 +37,22 @@ Theorem C02_tree_refines_machine :
 Proof. exact tree_find_refines. Qed.
 Print Assumptions C02_tree_refines_machine.
 
-(** ... hence findNode as it is now returns the specification's answer on the
-    content of every well-formed tree.  (That Add preserves [wfb] and that [abs] of
-    the tree built by a sequence of Adds is the machine's index is checked on every
-    generated case of the correspondence runs, not proved.) *)
+(** ... and the tree built by ANY sequence of Adds through the transcribed addNode /
+    splitCommonPrefix / Add satisfies [wfb] and holds exactly the entries of the
+    machine's index ... *)
+Theorem C02_tree_add_refines_machine :
+  forall (V : Type) (can_add : list V -> V -> bool) (adds : list (addop V)),
+    wfb (tree_load V can_add adds) = true /\
+    Permutation.Permutation (abs (tree_load V can_add adds)) (load can_add adds).
+Proof. exact tree_load_refines. Qed.
+Print Assumptions C02_tree_add_refines_machine.
+
+(** ... hence the compressed tree as tree.go builds and searches it returns the
+    specification's answer: for all Adds, all paths, all conditions *)
 Theorem C02_tree_find_is_most_specific :
-  forall (V : Type) (m : matcher V) (t : tree V) (path : str),
-    wfb t = true -> tree_find true true true m t path = spec_lookup (abs t) path m.
-Proof. exact tree_repaired_find_is_spec. Qed.
+  forall (V : Type) (can_add : list V -> V -> bool) (m : matcher V) (adds : list (addop V)) (path : str),
+    tree_find true true true m (tree_load V can_add adds) path = spec_lookup (load can_add adds) path m.
+Proof. exact tree_loaded_find_is_spec. Qed.
 Print Assumptions C02_tree_find_is_most_specific.
 
 (** *** the pinned behaviour (finding C02-F1, fixed by e897fef) *)
